@@ -1,3 +1,324 @@
+/-
+C12 — History records every command once, in order, and reads it back verbatim.
+Theorems over the hand-written models `JsonHist` (buffer / flusher-queue machine) and `LJ`
+(self-indexing JSON writer), tied to the code by xv/props/c12.py.
+-/
 import XonshVerif.Model.JsonHist
 import XonshVerif.Model.LazyJson
-theorem C12_placeholder : True := trivial
+open JsonHist
+
+/-! ## the accounting invariant, for every op sequence and every flusher schedule -/
+
+theorem dumpFilter_length_le (c : Cfg) (l : List Cmd) (last : Option Nat) :
+    (dumpFilter c l last).length ≤ l.length := by
+  induction l generalizing last with
+  | nil => simp [dumpFilter]
+  | cons x xs ih =>
+    simp only [dumpFilter]
+    split
+    · have := ih last; simp; omega
+    · split
+      · have := ih last; simp; omega
+      · have := ih (some x.inp); simp; omega
+
+theorem flush_inv (s : St) (h : HInv s) : HInv (flush s) := by
+  unfold flush
+  split
+  · exact h
+  · unfold HInv at *; simp [List.sum_append]; omega
+
+theorem append_inv (c : Cfg) (s : St) (x : Cmd) (h : HInv s) : HInv (append c s x) := by
+  unfold append
+  split
+  · exact h
+  · have h1 : HInv { s with buffer := s.buffer ++ [x], len := s.len + 1 } := by
+      unfold HInv at *; simp; omega
+    simp only []
+    split
+    · exact flush_inv _ h1
+    · exact h1
+
+theorem flusherRuns_inv (c : Cfg) (s : St) (h : HInv s) : HInv (flusherRuns c s) := by
+  unfold flusherRuns
+  cases hq : s.queue with
+  | nil => simpa [hq] using h
+  | cons snap rest =>
+    simp only []
+    have := dumpFilter_length_le c snap none
+    unfold HInv at *
+    simp [hq] at h ⊢
+    omega
+
+theorem drain_aux_inv (c : Cfg) (l : List (List Cmd)) (s : St) (h : HInv s) :
+    HInv (l.foldl (fun st _ => flusherRuns c st) s) := by
+  induction l generalizing s with
+  | nil => exact h
+  | cons a l ih => exact ih _ (flusherRuns_inv c s h)
+
+theorem drain_inv (c : Cfg) (s : St) (h : HInv s) : HInv (drain c s) := drain_aux_inv c _ s h
+
+theorem readIdx_inv (c : Cfg) (s : St) (i : Nat) (h : HInv s) : HInv (readIdx c s i).1 := by
+  unfold readIdx
+  simp only []
+  split
+  · exact h
+  · split
+    · split <;> exact h
+    · split <;> exact drain_inv c s h
+
+theorem step_inv (c : Cfg) (s : St) (op : Op) (h : HInv s) : HInv (step c s op).1 := by
+  cases op with
+  | append x => exact append_inv c s x h
+  | flush => exact flush_inv s h
+  | flusherRuns => exact flusherRuns_inv c s h
+  | read i => exact readIdx_inv c s i h
+
+/-- `_len`, `_skipped`, the file, the pending flushers and the buffer always add up -/
+theorem C12_accounting (c : Cfg) (ops : List Op) : HInv (run c init ops) := by
+  have : ∀ s, HInv s → HInv (run c s ops) := by
+    induction ops with
+    | nil => intro s h; exact h
+    | cons op rest ih => intro s h; exact ih _ (step_inv c s op h)
+  exact this init (by simp [HInv, init])
+
+/-! ## the recorded log: nothing lost, duplicated, reordered or invented -/
+
+def NoFilter (c : Cfg) : Prop := c.ignoredups = false ∧ c.ignoreerr = false
+
+theorem dumpFilter_id (c : Cfg) (hc : NoFilter c) (l : List Cmd) (last : Option Nat) : dumpFilter c l last = l := by
+  induction l generalizing last with
+  | nil => rfl
+  | cons x xs ih => simp [dumpFilter, hc.1, hc.2, ih]
+
+theorem dumpFilter_sublist (c : Cfg) (l : List Cmd) (last : Option Nat) : (dumpFilter c l last).Sublist l := by
+  induction l generalizing last with
+  | nil => simp [dumpFilter]
+  | cons x xs ih =>
+    simp only [dumpFilter]
+    split
+    · exact (ih last).cons _
+    · split
+      · exact (ih last).cons _
+      · exact (ih _).cons₂ _
+
+/-- what `append` adds to the log: the command itself, unless `ignorespace` excludes it -/
+def accepted (c : Cfg) (x : Cmd) : List Cmd := if c.ignorespace && x.spc then [] else [x]
+
+theorem contents_flush (c : Cfg) (s : St) :
+    contents c (flush s) = s.file ++ s.queue.flatMap (fun snap => dumpFilter c snap none) ++ dumpFilter c s.buffer none := by
+  unfold flush contents
+  by_cases h : s.buffer.isEmpty = true
+  · have : s.buffer = [] := by simpa using h
+    simp [h, this, dumpFilter]
+  · simp [h, List.flatMap_append]
+
+theorem contents_flusherRuns (c : Cfg) (s : St) : contents c (flusherRuns c s) = contents c s := by
+  unfold flusherRuns contents
+  cases hq : s.queue with
+  | nil => simp [hq]
+  | cons snap rest => simp [List.append_assoc]
+
+theorem contents_drain_aux (c : Cfg) (l : List (List Cmd)) (s : St) :
+    contents c (l.foldl (fun st _ => flusherRuns c st) s) = contents c s := by
+  induction l generalizing s with
+  | nil => rfl
+  | cons a l ih => simp only [List.foldl]; rw [ih, contents_flusherRuns]
+
+theorem contents_read (c : Cfg) (s : St) (i : Nat) : contents c (readIdx c s i).1 = contents c s := by
+  unfold readIdx
+  simp only []
+  split
+  · rfl
+  · split
+    · split <;> rfl
+    · split <;> exact contents_drain_aux c _ s
+
+/-- WITHOUT dump filters the log is exactly the accepted commands, in append order, whatever the
+buffer size and however flusher runs and reads interleave -/
+theorem step_log_nofilter (c : Cfg) (hc : NoFilter c) (s : St) (op : Op) :
+    contents c (step c s op).1 = contents c s ++ (match op with | .append x => accepted c x | _ => []) := by
+  cases op with
+  | append x =>
+    simp only [step, append, accepted]
+    by_cases hs : (c.ignorespace && x.spc) = true
+    · simp [hs]
+    · rw [if_neg hs, if_neg hs]
+      by_cases hb : (s.buffer ++ [x]).length ≥ c.bufsize
+      · simp only [hb, if_true]
+        rw [contents_flush]
+        simp [contents, dumpFilter_id c hc, List.append_assoc]
+      · simp only [hb, if_false]
+        simp [contents, List.append_assoc]
+  | flush =>
+    simp only [step]
+    rw [contents_flush]
+    simp [contents, dumpFilter_id c hc]
+  | flusherRuns => simp [step, contents_flusherRuns]
+  | read i => simp [step, contents_read]
+
+def appendedOf (c : Cfg) : List Op → List Cmd
+  | [] => []
+  | .append x :: rest => accepted c x ++ appendedOf c rest
+  | _ :: rest => appendedOf c rest
+
+theorem run_log_nofilter (c : Cfg) (hc : NoFilter c) (s : St) (ops : List Op) :
+    contents c (run c s ops) = contents c s ++ appendedOf c ops := by
+  induction ops generalizing s with
+  | nil => simp [run, appendedOf]
+  | cons op rest ih =>
+    simp only [run]
+    rw [ih, step_log_nofilter c hc]
+    cases op <;> simp [appendedOf, List.append_assoc]
+
+/-- C12 (log refinement): every accepted command is recorded exactly once, in append order —
+for ALL op sequences, buffer sizes and flusher schedules -/
+theorem C12_log (c : Cfg) (hc : NoFilter c) (ops : List Op) :
+    contents c (run c init ops) = appendedOf c ops := by
+  rw [run_log_nofilter c hc]; simp [contents, init]
+
+/-- with ignoredups / ignoreerr the log is still an in-order sub-sequence of what was appended:
+commands are only ever dropped, never duplicated, reordered or invented -/
+theorem step_log_sublist (c : Cfg) (s : St) (op : Op) :
+    (contents c (step c s op).1).Sublist
+      (contents c s ++ (match op with | .append x => accepted c x | _ => [])) := by
+  cases op with
+  | append x =>
+    simp only [step, append, accepted]
+    by_cases hs : (c.ignorespace && x.spc) = true
+    · simp [hs]
+    · rw [if_neg hs, if_neg hs]
+      by_cases hb : (s.buffer ++ [x]).length ≥ c.bufsize
+      · simp only [hb, if_true]
+        rw [contents_flush]
+        simp only [contents, List.append_assoc]
+        exact (List.Sublist.refl _).append ((List.Sublist.refl _).append (dumpFilter_sublist c _ none))
+      · simp only [hb, if_false]
+        simp [contents, List.append_assoc]
+  | flush =>
+    simp only [step, List.append_nil]
+    rw [contents_flush]
+    simp only [contents]
+    exact (List.Sublist.refl _).append (dumpFilter_sublist c _ none)
+  | flusherRuns => simp [step, contents_flusherRuns]
+  | read i => simp [step, contents_read]
+
+theorem C12_log_sublist (c : Cfg) (ops : List Op) :
+    (contents c (run c init ops)).Sublist (appendedOf c ops) := by
+  have : ∀ s, (contents c (run c s ops)).Sublist (contents c s ++ appendedOf c ops) := by
+    induction ops with
+    | nil => intro s; simp [run, appendedOf]
+    | cons op rest ih =>
+      intro s
+      simp only [run]
+      refine (ih _).trans ?_
+      have h1 := step_log_sublist c s op
+      cases op <;> simp only [appendedOf] <;>
+        first
+          | (rw [← List.append_assoc]; exact h1.append (List.Sublist.refl _))
+          | (simp only [List.append_nil] at h1; exact h1.append (List.Sublist.refl _))
+  simpa [contents, init] using this init
+
+/-! ## len and indexing -/
+
+/-- at quiescence (no flusher pending) `len` is the number of recorded commands and every index
+below it reads the right command — for every reachable state, filters or not -/
+theorem C12_quiescent_readback (c : Cfg) (s : St) (h : HInv s) (hq : s.queue = []) (i : Nat)
+    (hi : i < size s) :
+    size s = (s.file ++ s.buffer).length ∧ (readIdx c s i).2 = .val ((s.file ++ s.buffer)[i]'(by
+      unfold size HInv at *; simp [hq] at h; simp; omega)) := by
+  have hsz : size s = s.file.length + s.buffer.length := by
+    unfold size HInv at *; simp [hq] at h; omega
+  refine ⟨by simp [hsz], ?_⟩
+  unfold readIdx
+  simp only []
+  have h0 : ¬ (size s = 0 ∨ i ≥ size s) := by omega
+  simp only [h0, if_false]
+  by_cases hb : size s - s.buffer.length ≤ i
+  · simp only [hb, if_true]
+    have hidx : i + s.buffer.length - size s < s.buffer.length := by omega
+    have e : s.buffer[i + s.buffer.length - size s]? = some (s.buffer[i + s.buffer.length - size s]) :=
+      List.getElem?_eq_getElem hidx
+    rw [e]
+    simp only []
+    congr 1
+    have hfi : s.file.length ≤ i := by omega
+    rw [List.getElem_append_right hfi]
+    congr 1
+    omega
+  · simp only [hb, if_false]
+    have hd : drain c s = s := by simp [drain, hq]
+    rw [hd]
+    have hfi : i < s.file.length := by omega
+    rw [List.getElem?_eq_getElem hfi]
+    simp only []
+    congr 1
+    rw [List.getElem_append_left hfi]
+
+/-- `drain` without filters: the file gains exactly the pending snapshots, nothing is skipped -/
+theorem flusherRuns_nofilter (c : Cfg) (hc : NoFilter c) (s : St) :
+    (flusherRuns c s).skipped = s.skipped ∧ (flusherRuns c s).buffer = s.buffer ∧ (flusherRuns c s).len = s.len := by
+  unfold flusherRuns
+  cases s.queue with
+  | nil => simp
+  | cons snap rest => simp [dumpFilter_id c hc]
+
+theorem drain_aux_props (c : Cfg) (hc : NoFilter c) (l : List (List Cmd)) (s : St) (hl : l.length = s.queue.length) :
+    let s' := l.foldl (fun st _ => flusherRuns c st) s
+    s'.skipped = s.skipped ∧ s'.buffer = s.buffer ∧ s'.len = s.len ∧ s'.queue = [] := by
+  induction l generalizing s with
+  | nil =>
+    have : s.queue = [] := by
+      cases hq : s.queue with
+      | nil => rfl
+      | cons a b => simp [hq] at hl
+    exact ⟨rfl, rfl, rfl, this⟩
+  | cons a l ih =>
+    simp only [List.foldl]
+    have h1 := flusherRuns_nofilter c hc s
+    have hq : (flusherRuns c s).queue.length = l.length := by
+      unfold flusherRuns
+      cases hq : s.queue with
+      | nil => simp [hq] at hl
+      | cons snap rest => simp [hq] at hl ⊢; omega
+    obtain ⟨a1, a2, a3, a4⟩ := ih (flusherRuns c s) hq.symm
+    exact ⟨a1.trans h1.1, a2.trans h1.2.1, a3.trans h1.2.2, a4⟩
+
+/-- PARTIAL (no ignoredups / ignoreerr): `len(history)` and indexing are mutually consistent at
+EVERY reachable state — flushes in flight included: no index below `len` ever raises -/
+theorem C12_len_index_consistent_partial (c : Cfg) (hc : NoFilter c) (s : St) (h : HInv s)
+    (hsk : s.skipped = 0) (i : Nat) (hi : i < size s) : (readIdx c s i).2 ≠ .indexError := by
+  unfold readIdx
+  simp only []
+  have h0 : ¬ (size s = 0 ∨ i ≥ size s) := by omega
+  simp only [h0, if_false]
+  have hle : s.buffer.length ≤ size s := by unfold size HInv at *; omega
+  by_cases hb : size s - s.buffer.length ≤ i
+  · simp only [hb, if_true]
+    have hidx : i + s.buffer.length - size s < s.buffer.length := by omega
+    rw [List.getElem?_eq_getElem hidx]
+    simp
+  · simp only [hb, if_false]
+    obtain ⟨d1, d2, d3, d4⟩ := drain_aux_props c hc s.queue s rfl
+    have hinv := drain_inv c s h
+    unfold drain at hinv ⊢
+    have hfl : i < (s.queue.foldl (fun st _ => flusherRuns c st) s).file.length := by
+      unfold HInv at hinv
+      rw [d1, d2, d3, d4, hsk] at hinv
+      unfold size at hb hi
+      simp at hinv
+      omega
+    rw [List.getElem?_eq_getElem hfl]
+    simp
+
+/-- KNOWN FINDING `len-counts-commands-a-pending-flush-will-drop`: buffer size 4, ignoredups; after
+appending a a a b c one flusher is pending, `len` is 5, and reading index 3 raises IndexError -/
+theorem C12_cex_len_index :
+    let c : Cfg := ⟨4, true, false, false⟩
+    let s := run c init [.append ⟨1, 0, false⟩, .append ⟨1, 0, false⟩, .append ⟨1, 0, false⟩,
+      .append ⟨2, 0, false⟩, .append ⟨3, 0, false⟩]
+    size s = 5 ∧ (readIdx c s 3).2 = .indexError := by
+  decide
+
+example : NoFilter ⟨3, false, false, true⟩ := ⟨rfl, rfl⟩
+example : HInv (run ⟨2, true, true, false⟩ init [.append ⟨1, 0, false⟩, .append ⟨1, 1, false⟩, .flusherRuns]) :=
+  C12_accounting _ _
